@@ -563,6 +563,7 @@ func TestCorpus(t *testing.T) {
 func TestReplay(t *testing.T) {
 	if f := ev.ReplayFile(); f != "" {
 		replayFile(t, f, "TestReplay")
+		e2eCleanup() // TestReplay runs alone
 	}
 }
 
